@@ -20,6 +20,7 @@ EXPLANATION_ADDED = "(R5) the server UDP forwarder sends every datagram to the t
 EXPLANATION_ADDED2 = " (R11) all bridge rules of C13; (R12) an unused stream-request permit is never held while another in-crate async session runs; R1 also checks the HTTP proxy's request arguments and that the CONNECT tunnel runs on hyper's Upgraded object; R2 also requires the liveness refresh of UDP client entries and a routing table that is both looked up and filled; R9 also requires truncation to the received length; (R13) a family-specific outgoing socket of the server is created under a family test of the unconverted address that is then dialled."
 EXPLANATION = EXPLANATION + " Added while testing against seeded changes: " + EXPLANATION_ADDED + EXPLANATION_ADDED2
 EXPLANATION = EXPLANATION + ' Rounds 12-13: (R14) client UDP handlers register the sender of every received datagram before building its frame (no frame under an id left over from an earlier datagram); (R15) nothing sets SO_LINGER on a socket of the tunnel path; R9 accepts the receive buffer cut by slicing to the received length.'
+EXPLANATION = EXPLANATION + " Rounds 14-15 and the value sweep: (R16) a datagram of a flow the server has no forwarder for always starts one; R15 also forbids hyper's pipeline_flush on upgrade-serving connections; R5 / R9 / R1 are exact (the target, port, flow id, payload length and requested port are passed on as they are at every hop: no arithmetic, mask or narrowing cast)."
 ASSUMPTIONS = ["byte transparency of the bridge itself is C13 / C02; tokio sockets deliver what they are given"]
 NOT_DECIDED = "byte transparency, half-close behaviour, close/refusal propagation and concurrency of clients at run time"
 QUICK_CONFIGS = ["default"]
